@@ -209,9 +209,13 @@ func c13Run(raw json.RawMessage) harn.Result {
 		res.Violations = append(res.Violations, harn.Violation{Signature: sig, What: fmt.Sprintf("source %q: %s", c.Src, what)})
 	}
 	vm := drv.NewVM(drv.AllOn())
+	warm := c.Kind != "literal" && len(c.Src)%8 == 3 // one template case in eight on a well-used VM (both VMs of the comparison)
 	if c.Kind != "literal" { // a literal refers to no variable
 		if err := vm.Run(c13Prelude); err != nil {
 			panic(err)
+		}
+		if warm {
+			drv.WarmUp(vm)
 		}
 	}
 	var err error
@@ -250,6 +254,9 @@ func c13Run(raw json.RawMessage) harn.Result {
 		// differential: evaluate each hole program alone, in order, on a VM in the same state
 		ref := drv.NewVM(drv.AllOn())
 		_ = ref.Run(c13Prelude)
+		if warm {
+			drv.WarmUp(ref)
+		}
 		var want strings.Builder
 		for _, s := range c.Segs {
 			if s.Style == 0 {
